@@ -31,6 +31,8 @@ def gen_pool(rng):
     if rng.random() < 0.4:                                       # dashed top-level UID on a childless variant
         t = rng.choice(tops)
         pool.append(mkv(t + "optional", t + "-optional", rng.choice(["optional", "variant"]), ["x86_64"]))
+        if rng.random() < 0.5:                                   # ... and a different object claiming the same id and UID
+            pool.append(mkv(t + "optional", t + "-optional", rng.choice(["optional", "variant", "addon"]), rng.choice([["x86_64"], ["ppc64le"]]), name="twin"))
     if rng.random() < 0.25:                                      # invalid fields
         pool.append(mkv(rng.choice(["bad-id", "", "Ok"]), "Ok", rng.choice(TYPES + ["bogus"]), ["x86_64"], name=rng.choice(["", "n"])))
     if rng.random() < 0.2 and pool:                              # a second object with the same id/uid
@@ -48,6 +50,8 @@ def gen_ops(rng, pool):
         if rng.random() < 0.85:
             parent_uid = p["uid"].rsplit("-", 1)[0] if "-" in p["uid"] else None
             c = by_uid.get(parent_uid, 0) if (parent_uid and rng.random() < 0.85) else 0
+            if "-" in p["uid"] and p["id"] == p["uid"].replace("-", "") and rng.random() < 0.85:
+                c = 0                                            # a dashed top-level UID belongs at the top
             if rng.random() < 0.1:
                 c = rng.randrange(n + 1)
             vid = None
